@@ -9,6 +9,8 @@ Behaviours of a target:
   hang        connect() never returns until a signal arrives (then EINTR)              -> "connect: timed out"
   refuse      connect() fails with ECONNREFUSED (xrcmd retries with back-off)          -> "connect: Connection refused"
   mute        rsh peer accepts, reads the request, never answers the handshake         -> "read: protocol failure: timed out"
+  noback      rsh peer accepts, reads the port of the stderr back channel, never connects back and never
+              answers: the worker sits in xrcmd's xpoll for the circuit setup          -> "rcmd: xpoll (setting up stderr): ..."
   talkhang    rsh peer answers, sends one line, keeps the connection open (needs -u)   -> "command timeout"
   chatty      local command (exec module) that prints a line every 0.2 s for ever (needs -u): when the deadline
               passes the worker is relaying output, not sitting in xpoll                -> "command timeout"
@@ -37,11 +39,11 @@ def role(addr):
     except (ValueError, IndexError):
         return None
     return ("talk" if 1 <= k <= 6 else "mute" if 7 <= k <= 8 else "talkhang" if 9 <= k <= 10 else
-            "shimmed" if 11 <= k <= 16 else "blackhole" if 17 <= k <= 18 else None)
+            "shimmed" if 11 <= k <= 16 else "blackhole" if 17 <= k <= 18 else "noback" if 19 <= k <= 20 else None)
 
 
 def addrs(net, kind):
-    return [net + str(k) for k in range(1, 19) if role(net + str(k)) == kind]
+    return [net + str(k) for k in range(1, 21) if role(net + str(k)) == kind]
 
 
 class Peer:
@@ -70,7 +72,7 @@ class Peer:
             raise last or OSError("no free 127.9.K.0/24")
 
     def listen_on(self, net):
-        for a in addrs(net, "talk") + addrs(net, "mute") + addrs(net, "talkhang"):
+        for a in addrs(net, "talk") + addrs(net, "mute") + addrs(net, "talkhang") + addrs(net, "noback"):
             s = socket.socket()
             self.socks.append(s)
             s.setsockopt(socket.SOL_SOCKET, socket.SO_REUSEADDR, 1)
@@ -89,7 +91,8 @@ class Peer:
                 c.setblocking(False)
                 c.connect_ex((a, 514))
                 self.held.append(c)
-        for s, a in zip(self.socks, addrs(net, "talk") + addrs(net, "mute") + addrs(net, "talkhang")):
+        for s, a in zip(self.socks, addrs(net, "talk") + addrs(net, "mute") + addrs(net, "talkhang") +
+                        addrs(net, "noback")):
             threading.Thread(target=self.accept_loop, args=(s, a), daemon=True).start()
 
     def accept_loop(self, s, addr):
@@ -111,6 +114,9 @@ class Peer:
                     return
                 data += b
             port = data.split(b"\0")[0]
+            if role(addr) == "noback":
+                c.recv(1)                   # never connect back, never answer; wait until pdsh gives up and closes
+                return
             if port.isdigit():              # -s: stderr back channel from a reserved port
                 for lp in range(1023, 511, -1):
                     try:
@@ -227,17 +233,18 @@ def pinned_cases(net=NET):
     behind them), -t only, -u only (connect timeout left at a value no fault needs), both."""
     first = {"hang": addrs(net, "shimmed")[0], "refuse": addrs(net, "shimmed")[3], "mute": addrs(net, "mute")[0],
              "talkhang": addrs(net, "talkhang")[0], "blackhole": addrs(net, "blackhole")[0], "chatty": "c0",
-             "dies": "d00", "dies-segv": "d10", "exits": "x0"}
+             "dies": "d00", "dies-segv": "d10", "exits": "x0", "noback": addrs(net, "noback")[0]}
     talk = addrs(net, "talk")
     out = []
 
-    def add(kind, ct, ut, fan, pos):
+    def add(kind, ct, ut, fan, pos, sopt=False):
         healthy = [("e0", "exec"), (talk[len(out) % len(talk)], "talk"), ("e1", "exec")]
         bad = (first[kind], "dies" if kind.startswith("dies") else kind)
         hosts = [bad] + healthy if pos == "first" else healthy + [bad] if pos == "last" else healthy[:1] + [bad] + healthy[1:]
         i = len(out)
         out.append({"id": 800 + i, "token": "tokpin%04d" % (800 + i), "ct": ct, "ut": ut,
-                    "fanout": len(hosts) if fan is None else fan, "hosts": hosts, "net": net, "pinned": True})
+                    "fanout": len(hosts) if fan is None else fan, "hosts": hosts, "net": net, "pinned": True,
+                    "sopt": sopt})
     for kind in ("hang", "blackhole", "mute", "refuse"):
         add(kind, 1, 0, None, "mid")                     # -t only
     for kind in ("talkhang", "chatty"):
@@ -250,6 +257,9 @@ def pinned_cases(net=NET):
     add("dies", 1, 0, None, "mid")
     add("dies-segv", 1, 2, 1, "first")
     add("exits", 1, 0, 2, "last")
+    # the stderr back channel of the rsh protocol (xrcmd's circuit setup) with a peer that never connects back
+    add("noback", 1, 0, None, "mid")
+    add("noback", 2, 2, 1, "first")
     return out
 
 
@@ -263,7 +273,7 @@ def expected_wall(case, refuse=None):
     ct, ut = case["ct"], case["ut"]
     per = 0.5
     for _, kd in case["hosts"]:
-        if kd in ("hang", "mute", "blackhole"):
+        if kd in ("hang", "mute", "blackhole", "noback"):
             per = max(per, ct + WDOG_POLL)
         elif kd == "refuse":
             per = max(per, refuse if refuse is not None else ct + WDOG_POLL)
@@ -284,6 +294,8 @@ def run_case(exe, shim, helper, case, scratch, hard_timeout=None):
                       if kd in ("hang", "refuse"))
     words = ",".join(("exec:" + a) if kd in ("exec", "chatty", "dies", "exits") + TEARDOWN_KINDS else a
                      for a, kd in case["hosts"])
+    # (stderr travels on a connection of its own by default in this build: opt.c separate_stderr = true, there is
+    # no -s option; so every rsh target goes through xrcmd's circuit setup)
     argv = [exe, "-R", "rsh", "-t", str(case["ct"]), "-f", str(case["fanout"])]
     if case["ut"] > 0:
         argv += ["-u", str(case["ut"])]
@@ -305,7 +317,8 @@ def run_case(exe, shim, helper, case, scratch, hard_timeout=None):
 # what the property asks for is a report under the host's own name; the texts are xrcmd.c's / dsh.c's.  A refusing
 # host is reported as refused when its retries end before the connect timeout, and as timed out when the
 # connect timeout ends the retries (repaired xrcmd.c: an interrupted back-off sleep is the expired timeout)
-REPORT = {"hang": (": connect: timed out",), "blackhole": (": connect: timed out",), "mute": (": read: protocol failure: timed out",),
+REPORT = {"hang": (": connect: timed out",), "blackhole": (": connect: timed out",),
+          "noback": (": rcmd: xpoll (setting up stderr): Interrupted system call",), "mute": (": read: protocol failure: timed out",),
           "refuse": (": connect: Connection refused", ": connect: timed out"), "talkhang": (": command timeout",),
           "chatty": (": command timeout",), "immortal": (": command timeout",),
           "dies": (": ... killed by signal N",), "exits": (": ... exited with exit code 3",)}
